@@ -119,6 +119,20 @@ def _inline_explaining(fn) -> None:
                         b.test = ast.copy_location(ast.UnaryOp(op=ast.Not(), operand=val), t) if neg else val
                         del lst[i]
                         continue
+                    # the variable explains the FIRST operand the test evaluates: `x = A; if x or B:` is `if A or B:`
+                    first = t
+                    while isinstance(first, (ast.BoolOp, ast.UnaryOp)):
+                        first = first.values[0] if isinstance(first, ast.BoolOp) else first.operand
+                    if isinstance(first, ast.Name) and first.id == a.targets[0].id:
+                        target = a.targets[0].id
+                        value = a.value
+
+                        class R(ast.NodeTransformer):
+                            def visit_Name(self, n):
+                                return ast.copy_location(value, n) if n.id == target else n
+                        b.test = R().visit(t)
+                        del lst[i]
+                        continue
                 i += 1
             for st in lst:
                 if not isinstance(st, (ast.FunctionDef, ast.AsyncFunctionDef, ast.ClassDef)):
